@@ -1,9 +1,258 @@
-//! C10, connection level (filled in once the in-memory test bed exists).
-use crate::runner::{Ctx, Stats};
+//! C10, connection level: the handler that reads the payload receives exactly
+//! the bytes sent, for every fragmentation of the inbound stream, every
+//! min_chunk_size / payload buffer setting and every reader pace.
 
-pub fn run_into(_ctx: &Ctx, _stats: &mut Stats) {}
+use proptest::prelude::*;
+use serde::{Deserialize, Serialize};
+use serde_json::json;
 
-pub fn replay(path: &str, _case: &serde_json::Value) -> i32 {
-    eprintln!("connection-level replay not available: {path}");
-    2
+use crate::bed::any::{Cfg, Eut};
+use crate::bed::v5::WireTail;
+use crate::bed::*;
+use crate::runner::*;
+use crate::spec::v5::{self as s5, P5};
+use crate::spec::wire;
+
+#[derive(Clone, Copy, Debug, PartialEq, Eq, Hash, Serialize, Deserialize)]
+pub struct PubSpec {
+    pub size: u32,
+    pub read: ReadPlan,
+    /// the handler waits for the driver before it finishes (and, for the lazy plans, before it reads)
+    pub deferred: bool,
+}
+
+#[derive(Clone, Debug, PartialEq, Eq, Hash, Serialize, Deserialize)]
+pub struct Case {
+    pub role: Role,
+    pub min_chunk: u32,
+    pub max_buffer: usize,
+    pub pubs: Vec<PubSpec>,
+    /// 0 whole stream in one write, 1 one byte per write, 2 the given cut offsets, 3 every frame boundary -1/0/+1
+    pub mode: u8,
+    pub cuts: Vec<u16>,
+}
+
+fn fail(c: &Case, rule: &str, detail: String) -> Failure {
+    Failure::new(rule, format!("C10/conn/{}/{rule}", c.role.name()), detail)
+}
+
+pub async fn run_case(c: Case) -> Result<CaseInfo, Failure> {
+    let mut cfg = Cfg::default();
+    cfg.v3.min_chunk_size = c.min_chunk;
+    cfg.v5.min_chunk_size = c.min_chunk;
+    cfg.v3.max_payload_buffer = c.max_buffer;
+    cfg.v5.max_payload_buffer = c.max_buffer;
+    cfg.v3.max_size = 0;
+    cfg.v5.max_size = 0;
+    let eut = Eut::start(c.role, &cfg).await;
+    eut.handshake(&cfg).await;
+    if eut.done().is_some() {
+        return Err(fail(&c, "harness-handshake", format!("{:?}", eut.done())));
+    }
+    let app = eut.app().clone();
+    // the inbound stream
+    let mut stream: Vec<u8> = Vec::new();
+    let mut bounds: Vec<usize> = Vec::new();
+    let mut payloads: Vec<Vec<u8>> = Vec::new();
+    for (i, p) in c.pubs.iter().enumerate() {
+        let pid = i as u16 + 1;
+        let payload = wire::payload(u32::from(pid) * 7919, p.size);
+        let pb = s5::Publish5 { qos: 1, pid: Some(pid), topic: "t/a".into(), payload_len: p.size, ..Default::default() };
+        stream.extend_from_slice(&eut.encode(&P5::Publish(Box::new(pb)), &payload));
+        bounds.push(stream.len());
+        payloads.push(payload);
+        app.pub_plans.borrow_mut().insert(i as u32, PubPlan { outcome: Outcome::Ok, read: p.read });
+        if p.deferred {
+            app.hold(G_PUB, i as u32);
+        }
+    }
+    if c.role.is_server() {
+        stream.extend_from_slice(&eut.encode(&P5::PingReq, &[]));
+    }
+    // fragmentation
+    let mut cuts: Vec<usize> = match c.mode % 4 {
+        0 => Vec::new(),
+        1 => (1..stream.len()).collect(),
+        2 => c.cuts.iter().map(|x| usize::from(*x) % stream.len().max(1)).filter(|x| *x > 0).collect(),
+        _ => bounds.iter().flat_map(|b| [b.saturating_sub(1), *b, b + 1]).filter(|x| *x > 0 && *x < stream.len()).collect(),
+    };
+    cuts.sort_unstable();
+    cuts.dedup();
+    let mut at = 0;
+    let mut inside_payload = false;
+    for cut in cuts.iter().chain(std::iter::once(&stream.len())) {
+        if *cut > at {
+            eut.peer().send(&stream[at..*cut]);
+            at = *cut;
+            eut.settle().await;
+        }
+        // a cut strictly inside the payload of some publish?
+        let mut start = 0;
+        for (i, b) in bounds.iter().enumerate() {
+            let pl = payloads[i].len();
+            if pl > 1 && *cut > b - pl && *cut < *b && *cut > start {
+                inside_payload = true;
+            }
+            start = *b;
+        }
+    }
+    app.open_all();
+    for _ in 0..3 {
+        eut.settle().await;
+    }
+    // ---- judgement
+    let ev = app.events();
+    let stops = app.stops();
+    let describe = || format!("min_chunk {} buffer {} mode {} cuts {:?} pubs {:?}; log {:?}; stops {stops:?}", c.min_chunk, c.max_buffer, c.mode, &cuts[..cuts.len().min(12)], c.pubs, crate::props::c03::brief_log(&ev));
+    if !stops.is_empty() || eut.done().is_some() {
+        return Err(fail(&c, "connection-ended", format!("a valid stream ended the connection; {}", describe())));
+    }
+    let enters = app.pub_enters();
+    if enters.len() != c.pubs.len() {
+        return Err(fail(&c, "announced-count", format!("{} publishes sent, {} handler invocations; {}", c.pubs.len(), enters.len(), describe())));
+    }
+    for (i, p) in c.pubs.iter().enumerate() {
+        let (_, seen) = &enters[i];
+        if seen.payload_size != p.size || seen.pid != Some(i as u16 + 1) {
+            return Err(fail(&c, "announced-size", format!("publish #{i}: declared {} bytes, handler saw size {} id {:?}; {}", p.size, seen.payload_size, seen.pid, describe())));
+        }
+        let read = ev.iter().find_map(|e| if let Ev::PubRead { seq, data, end } = e { (*seq == i as u32).then_some((data.clone(), end.clone())) } else { None });
+        match (p.read, read) {
+            (ReadPlan::Abandon, None) => {}
+            (ReadPlan::Abandon, Some(r)) => return Err(fail(&c, "harness-plan", format!("abandoning handler #{i} read {:?}", r.1))),
+            (ReadPlan::ReadK(_), Some((data, end))) => {
+                if !payloads[i].starts_with(&data) || matches!(end, ReadEnd::Err(_)) {
+                    return Err(Failure::new(
+                        "payload-differs",
+                        format!("C10/conn/{}/payload-differs", c.role.name()),
+                        format!("publish #{i}: partial reader got {} bytes ending {end:?} that are not a prefix of the {} bytes sent; {}", data.len(), p.size, describe()),
+                    ));
+                }
+            }
+            (_, Some((data, ReadEnd::Eof))) if data == payloads[i] => {}
+            (_, other) => {
+                let got = other.map(|(d, e)| (d.len(), e, d.iter().zip(payloads[i].iter()).position(|(a, b)| a != b)));
+                return Err(Failure::new(
+                    "payload-differs",
+                    format!("C10/conn/{}/payload-differs", c.role.name()),
+                    format!("publish #{i} ({} bytes, reader {:?}): handler got (length, end, first differing offset) {got:?}; {}", p.size, p.read, describe()),
+                ));
+            }
+        }
+    }
+    let (pk, tail) = eut.packets();
+    if !matches!(tail, WireTail::Clean) {
+        return Err(fail(&c, "wire-garbage", format!("{tail:?}")));
+    }
+    let acks = pk.iter().filter(|w| matches!(&w.pkt, P5::PubAck(a) if a.reason == 0)).count();
+    let pongs = pk.iter().filter(|w| matches!(w.pkt, P5::PingResp)).count();
+    if acks != c.pubs.len() || (c.role.is_server() && pongs != 1) {
+        return Err(fail(&c, "stream-desynchronised", format!("{} publishes acknowledged of {}, {pongs} PINGRESP; {}", acks, c.pubs.len(), describe())));
+    }
+    eut.finish().await;
+    let partial = c.pubs.iter().any(|p| matches!(p.read, ReadPlan::Abandon | ReadPlan::ReadK(_)) && p.size > 0);
+    let lazy = c.pubs.iter().any(|p| matches!(p.read, ReadPlan::Lazy | ReadPlan::LazyAll) && p.deferred && p.size > 0);
+    let mut info = if inside_payload { CaseInfo::nontrivial(&(c.role, c.min_chunk, c.max_buffer.min(70_000), c.mode % 4, cuts.len().min(6), c.pubs.iter().map(|p| (size_class(p.size, c.min_chunk), p.read, p.deferred)).collect::<Vec<_>>())) } else { CaseInfo::trivial() };
+    info.labels.push("connection-level");
+    if partial {
+        info.labels.push("conn-reader-abandons");
+    }
+    if lazy {
+        info.labels.push("conn-reader-lazy");
+    }
+    if c.pubs.iter().any(|p| p.size as usize > c.max_buffer) {
+        info.labels.push("conn-payload-above-buffer");
+    }
+    Ok(info)
+}
+
+fn size_class(n: u32, min: u32) -> u8 {
+    match n {
+        0 => 0,
+        1 => 1,
+        _ if min > 1 && n < min => 2,
+        _ if n == min => 3,
+        _ if n < 128 => 4,
+        _ if n < 1024 => 5,
+        _ if n < 16_384 => 6,
+        _ => 7,
+    }
+}
+
+fn pub_strategy(thorough: bool) -> BoxedStrategy<PubSpec> {
+    let size = if thorough {
+        prop_oneof![2 => 0u32..6, 3 => 6u32..40, 2 => 120u32..135, 2 => 1000u32..1100, 1 => 16_380u32..16_390, 1 => Just(70_000u32)].boxed()
+    } else {
+        prop_oneof![2 => 0u32..6, 3 => 6u32..40, 2 => 120u32..135, 1 => 1000u32..1100].boxed()
+    };
+    let read = prop_oneof![
+        3 => Just(ReadPlan::Eager),
+        2 => Just(ReadPlan::Lazy),
+        2 => Just(ReadPlan::EagerAll),
+        2 => Just(ReadPlan::LazyAll),
+        1 => Just(ReadPlan::Abandon),
+        1 => (1u8..3).prop_map(ReadPlan::ReadK),
+    ];
+    (size, read, any::<bool>()).prop_map(|(size, read, deferred)| PubSpec { size, read, deferred }).boxed()
+}
+
+fn case_strategy(role: Role, thorough: bool) -> BoxedStrategy<Case> {
+    (
+        prop::sample::select(vec![0u32, 1, 4, 16, 1024, 32_768]),
+        prop::sample::select(vec![8usize, 64, 32 * 1024]),
+        prop::collection::vec(pub_strategy(thorough), 1..4),
+        0u8..4,
+        prop::collection::vec(any::<u16>(), 0..10),
+    )
+        .prop_map(move |(min_chunk, max_buffer, mut pubs, mode, cuts)| {
+            // byte-at-a-time delivery only for short streams
+            let total: u32 = pubs.iter().map(|p| p.size + 12).sum();
+            let mode = if mode == 1 && total > 700 { 3 } else { mode };
+            // a partial reader followed by more of its payload only makes sense when it is not also the lazy kind
+            for p in &mut pubs {
+                if matches!(p.read, ReadPlan::ReadK(_)) && p.size == 0 {
+                    p.read = ReadPlan::Eager;
+                }
+            }
+            Case { role, min_chunk, max_buffer, pubs, mode, cuts }
+        })
+        .boxed()
+}
+
+/// every reader plan x every fragmentation of one short publish followed by a second one
+fn fixed_cases() -> Vec<Case> {
+    let mut out = Vec::new();
+    for role in Role::ALL {
+        for read in [ReadPlan::Eager, ReadPlan::Lazy, ReadPlan::EagerAll, ReadPlan::LazyAll, ReadPlan::Abandon, ReadPlan::ReadK(1)] {
+            for deferred in [false, true] {
+                for min_chunk in [0u32, 4] {
+                    for mode in [0u8, 1, 3] {
+                        out.push(Case { role, min_chunk, max_buffer: 8, pubs: vec![PubSpec { size: 12, read, deferred }, PubSpec { size: 5, read: ReadPlan::Eager, deferred: false }], mode, cuts: vec![] });
+                    }
+                    // three pieces of four bytes
+                    out.push(Case { role, min_chunk, max_buffer: 32 * 1024, pubs: vec![PubSpec { size: 12, read, deferred }, PubSpec { size: 5, read: ReadPlan::Eager, deferred: false }], mode: 2, cuts: vec![14, 18, 22] });
+                }
+            }
+        }
+    }
+    out
+}
+
+pub fn run_into(ctx: &Ctx, stats: &mut Stats) {
+    let thorough = ctx.tier == Tier::Thorough;
+    let per_shard = ctx.tier.pick(1_200u32, 25_000);
+    let fixed = fixed_cases();
+    let st = par_shards(WORKERS, |shard| {
+        let mut st = Stats::default();
+        let mine: Vec<Case> = fixed.iter().enumerate().filter(|(i, _)| i % WORKERS == shard).map(|(_, c)| c.clone()).collect();
+        run_list_bed("C10", mine, &mut st, |c| json!({"kind": "conn", "case": c}), run_case);
+        run_proptest_bed("C10", ctx.sub_seed("conn", shard), per_shard, &case_strategy(Role::ALL[shard % 4], thorough), &mut st, |c| json!({"kind": "conn", "case": c}), run_case);
+        st
+    });
+    stats.merge(st);
+}
+
+pub fn replay(path: &str, case: &serde_json::Value) -> i32 {
+    let res = serde_json::from_value::<Case>(case["case"].clone()).map_err(|e| e.to_string()).map(|c| run_isolated("C10", c, &run_case));
+    super::report_replay("C10", path, res)
 }
